@@ -1333,9 +1333,11 @@ public:
       return;
     }
 
-    linear_expression_t e(x);
-    term_id_t tx(build_linexpr(e));
-    rebind_var(y, tx);
+    // y becomes a copy of x that is NOT related to x. The domain only
+    // keeps equalities between terms, and binding y to the term of
+    // x would make them equal: y gets a fresh term.
+    term_id_t ty = m_ttbl.fresh_var();
+    rebind_var(y, ty);
     check_terms(__LINE__);
   }
 
